@@ -28,7 +28,7 @@ def run(tier):
                       "IvsTrace checks the contract (each added set retrievable region by region through its mapped "
                       "index) and the reader's compute_delta at probe locations against exact rational tent scalars; "
                       "fvar normalisation and avar segment maps are checked as relations (end points, clamping, "
-                      "monotone, within one F2Dot14 unit of the exact line).")
+                      "monotone, within one F2Dot14 unit of the exact line). The variation stores of the corpus fonts (HVAR, VVAR, MVAR, GDEF, COLR) are read raw and every row read-fonts decodes is compared with Ivs.tla's decoding of the bytes.")
     ck.assumptions = ["region and location coordinates are multiples of 0.25 so that exact rational arithmetic fits TLC integers",
                       "HVAR advance/side-bearing deltas through skrifa's GlyphMetrics are not covered yet",
                       "in the quick tier every 8th enumerated history is shipped to TLC (all go through the builder and readers)"]
@@ -50,6 +50,12 @@ def run(tier):
         res = vlib.run_harness("fv-write", ["c11", "random", "--seed", vlib.seed() + i, "--n", 100 if tier == "quick" else 500, "--out", t2])
         ck.add_harness("record:random:%d" % i, res, traces=False)
         validate(ck, wd, "random:%d" % i, t2)
+    # V on the corpus: the item variation stores of HVAR / VVAR / MVAR / GDEF / COLR of every variable font, rows decoded by
+    # the specification from the raw bytes versus the rows read-fonts returns
+    t3 = os.path.join(wd, "corpus.ndjson")
+    res = vlib.run_harness("fv-write", ["c11", "corpus", "--out", t3])
+    ck.add_harness("record:corpus", res, traces=False)
+    validate(ck, wd, "corpus", t3)
     return ck.finish()
 
 
